@@ -25,6 +25,8 @@
  *   skip=<k>          k inode numbers are used up before anything is created (varies the split directories and scan orders)
  *   sched=<seed>      seed of the schedule
  *   hor=<n>           horizon in selects per incarnation
+ *   dfs=<c0,c1,..|->  systematic mode: decisions only at calls on queue files, an idle daemon waits for the trigger; the listed
+ *                     choices are forced, after them the first candidate is taken (the harness prints the choices made)
  */
 #define _GNU_SOURCE
 #include "sim.h"
@@ -59,6 +61,8 @@ static scen S;
 
 static uint64_t rng;
 static int nselect, incarnation, term_sent, nattempt;
+static int dfs_mode, dsched[512], ndsched, dmade[512], dbranch[512], ndmade;   /* systematic mode: forced prefix, then first choice */
+static int dfs_idle_after;
 static int nselect5_reset;
 static unsigned long pick_budget;
 static long stall_release;      /* clock at which the stalled injector may go on (0 = not yet stalled) */
@@ -76,9 +80,22 @@ static int stalled(int pi) {
   if (!stall_release) stall_release = W.clock + S.ssecs;
   return W.clock < stall_release;
 }
+static int interesting_dfs(int pi, const char *w) {     /* systematic mode: decisions only at calls on queue files */
+  const char *a = sim_pending_arg[pi];
+  if (!a || !strstr(a, "/queue/") || strstr(a, "/queue/lock/")) return 0;
+  return !strcmp(w, "open_excl") || !strcmp(w, "link") || !strcmp(w, "link_todo") || !strcmp(w, "unlink") || !strcmp(w, "stat") ||
+         !strcmp(w, "open_read") || !strcmp(w, "open_append");
+}
 static int pick(int n, int *idx, const char **what) {
   int cand[SIM_MAXPROC], nc = 0;
   if (++pick_budget == 400000) { xlog("X budget-abort\n"); sim_crash_before = W.ncalls_total + 1; }   /* no scenario needs this many steps */
+  if (dfs_mode) {
+    for (int i = 0; i < n; i++) if (!interesting_dfs(idx[i], what[i])) return i;
+    if (n == 1) return 0;
+    int k = ndmade < ndsched ? dsched[ndmade] % n : 0;
+    if (ndmade < 512) { dmade[ndmade] = k; dbranch[ndmade] = n; ndmade++; }
+    return k;
+  }
   for (int i = 0; i < n; i++) if (!stalled(idx[i])) cand[nc++] = i;
   if (nc == 0) return 0;                                 /* only the stalled one is left: let it go on */
   for (int i = 0; i < nc; i++) if (!interesting(what[cand[i]])) return cand[i];
@@ -107,6 +124,8 @@ static void answer_commands(void) {
 }
 static int injectors_active(void) { for (int i = 2; i < 5; i++) if (P[i].used && P[i].mainfn && !P[i].finished) return 1; return 0; }
 static int todo_entries(void) { int n = 0; for (int i = 0; i < W.ndent; i++) if (W.dent[i].ino >= 0 && strstr(W.dent[i].path, "/queue/todo/")) n++; return n; }
+static int fifo_ready(simproc *p) { for (int fd = 0; fd < SIM_MAXFD; fd++) if (p->fd[fd].kind == SFD_FIFO_R && W.ino[p->fd[fd].ino].buffered > 0) return 1; return 0; }
+static int dfs_idle(simproc *p) { return !fifo_ready(p) && injectors_active(); }
 static int daemon_select(simproc *p, int nfds, fd_set *r, fd_set *w, struct timeval *tv) {
   if (p->idx != 0) {                                     /* the second instance, should it get this far: stop it after a while */
     static int n5; if (nselect5_reset) { n5 = 0; nselect5_reset = 0; }
@@ -127,8 +146,16 @@ static int daemon_select(simproc *p, int nfds, fd_set *r, fd_set *w, struct time
       if (ok) { FD_SET(fd, &ro); n++; } }
     if (w && FD_ISSET(fd, w) && f->kind != SFD_FREE) { FD_SET(fd, &wo); n++; }
   }
+  if (dfs_mode && n == 0 && tv && tv->tv_sec > 0 && injectors_active()) {
+    /* systematic mode: an idle daemon waits for the trigger (time stands still while injectors are at work) */
+    sim_wait(dfs_idle, "select_wait");
+    n = 0; FD_ZERO(&ro);
+    for (int fd = 0; fd < nfds && fd < SIM_MAXFD; fd++) { simfd *f = &p->fd[fd];
+      if (r && FD_ISSET(fd, r) && f->kind == SFD_FIFO_R && W.ino[f->ino].buffered > 0) { FD_SET(fd, &ro); n++; } }
+  }
   if (n == 0 && tv && tv->tv_sec > 0) W.clock += tv->tv_sec;          /* nothing to do: time passes */
-  if (!term_sent && (nselect >= S.hor || (nselect > 40 && !injectors_active() && !todo_entries() && W.clock > T0 + 60 * 3600L))) {
+  if (!term_sent && (nselect >= S.hor || (nselect > 40 && !injectors_active() && !todo_entries() && W.clock > T0 + 60 * 3600L) ||
+                     (dfs_mode && n == 0 && tv && tv->tv_sec > 0 && !injectors_active() && !todo_entries() && ++dfs_idle_after > 3))) {   /* systematic mode: stop once everything has settled */
     term_sent = 1; xlog("X term clock=%ld\n", W.clock); sim_deliver_signal(p, SIGTERM);
   }
   if (nselect > S.hor + 80) { xlog("X horizon-abort\n"); sim_crash_before = W.ncalls_total + 1; }
@@ -230,7 +257,7 @@ static void add_injector(int slot, char kind) {
 static void run_incarnation(void) {
   incarnation++;
   sim_globals_restore();
-  nselect = 0; term_sent = 0; cmdpos[0] = cmdpos[1] = 0; stall_release = 0; nselect5_reset = 1; pick_budget = 0;
+  nselect = 0; term_sent = 0; cmdpos[0] = cmdpos[1] = 0; stall_release = 0; nselect5_reset = 1; pick_budget = 0; dfs_idle_after = 0;
   W.nsrc = 0; W.nsink = 0; W.npipe = 0;
   simproc *p0 = sim_proc(0, "qmail-send", 500 + incarnation, 7796, "/");
   simproc *p1 = sim_proc(1, "qmail-clean", 600 + incarnation, 7794, "/");
@@ -268,6 +295,7 @@ static void run_incarnation(void) {
 static void run_scenario(void) {
   fprintf(h_out, "CASE %s\n", S.text);
   if (getenv("C02DBG")) fprintf(stderr, "CASE %s\n", S.text);
+  ndmade = 0;
   incarnation = 0; nattempt = 0; nbounce = 0; rng = S.sched * 2654435761ull + 88172645463325252ull;
   world_init();
   flush_trace();
@@ -280,11 +308,21 @@ static void run_scenario(void) {
     char tag[24]; snprintf(tag, sizeof tag, "after%d", inc + 1); dump(tag);
     if (!crashed) break;
   }
+  if (dfs_mode) { fprintf(h_out, "X choices"); for (int i = 0; i < ndmade; i++) fprintf(h_out, "%s%d", i ? "," : " ", dmade[i]); fprintf(h_out, "\n"); }
   fprintf(h_out, "END\n");
 }
 
+static int next_schedule(void) {     /* depth-first successor of the choices just made; 0 when exhausted */
+  int i = ndmade - 1;
+  while (i >= 0 && dmade[i] + 1 >= dbranch[i]) i--;
+  if (i < 0) return 0;
+  for (int k = 0; k < i; k++) dsched[k] = dmade[k];
+  dsched[i] = dmade[i] + 1; ndsched = i + 1;
+  return 1;
+}
+
 static void parse_scenario(const char *line) {
-  memset(&S, 0, sizeof S); S.hor = 260; S.sched = 1;
+  memset(&S, 0, sizeof S); S.hor = 260; S.sched = 1; dfs_mode = 0;
   snprintf(S.text, sizeof S.text, "%s", line); { char *nl = strchr(S.text, '\n'); if (nl) *nl = 0; }
   char tmp[600]; snprintf(tmp, sizeof tmp, "%s", S.text); char *save = 0;
   for (char *t = strtok_r(tmp, " ", &save); t; t = strtok_r(0, " ", &save)) {
@@ -297,6 +335,7 @@ static void parse_scenario(const char *line) {
     else if (!strcmp(t, "fault")) sscanf(v, "%d:%d:%d", &S.fproc, &S.fcall, &S.ferr);
     else if (!strcmp(t, "d2")) S.d2 = atoi(v);
     else if (!strcmp(t, "skip")) S.skip = atoi(v) % 64;
+    else if (!strcmp(t, "dfs")) { dfs_mode = 1; ndsched = 0; if (strcmp(v, "-")) { char *s3 = 0; for (char *u = strtok_r(v, ",", &s3); u && ndsched < 512; u = strtok_r(0, ",", &s3)) dsched[ndsched++] = atoi(u); } }
     else if (!strcmp(t, "crash")) sscanf(v, "%lu:%d", &S.crashk, &S.crashmode);
     else if (!strcmp(t, "sched")) S.sched = strtoull(v, 0, 10);
     else if (!strcmp(t, "hor")) S.hor = atoi(v);
@@ -340,6 +379,27 @@ int main(int argc, char **argv) {
   char *line = malloc(2000);
   if (argc > 1 && !strcmp(argv[1], "-")) {
     while (fgets(line, 2000, stdin)) { if (strlen(line) < 3) continue; parse_scenario(line); run_scenario(); }
+    fflush(h_out); return 0;
+  }
+  if (argc > 1 && !strcmp(argv[1], "D")) {
+    /* depth-first enumeration of every interleaving of the queue-file calls for small configurations:
+     * c02_queuesys D <config> <limit> <shard> <nshards>; shard k owns the subtree of first choices (k%3, (k/3)%3) */
+    static const char *cfgs[] = { "inj=0 pre=3:40 out=K hor=400", "inj=2 pre=4:1 out=K hor=400", "inj=01 out=K hor=400", "inj=6 pre=5:1 out=D hor=400", "inj=0 pre=q:40,2:40 out=Z hor=400" };
+    int cfg = h_argi(argc, argv, 2, 0) % 5, limit = h_argi(argc, argv, 3, 100), shard = h_argi(argc, argv, 4, 0);
+    if (shard >= 9) return 0;
+    int f0 = shard % 3, f1 = (shard / 3) % 3, complete = 0, runs = 0;
+    dsched[0] = f0; dsched[1] = f1; ndsched = 2;
+    for (; runs < limit; runs++) {
+      char txt[300]; size_t n = snprintf(txt, sizeof txt, "%s dfs=", cfgs[cfg]);
+      for (int i = 0; i < ndsched; i++) n += snprintf(txt + n, sizeof txt - n, "%s%d", i ? "," : "", dsched[i]);
+      int keep[512], nkeep = ndsched; memcpy(keep, dsched, sizeof(int) * ndsched);
+      parse_scenario(txt); memcpy(dsched, keep, sizeof(int) * nkeep); ndsched = nkeep; dfs_mode = 1;
+      run_scenario();
+      if (ndmade >= 1 && dmade[0] != f0) { complete = 1; break; }       /* the forced first choice did not exist: nothing in this shard */
+      if (ndmade >= 2 && dmade[1] != f1) { complete = 1; break; }
+      if (!next_schedule() || ndsched <= 2) { complete = 1; runs++; break; }
+    }
+    fprintf(h_out, "X dfs-summary cfg=%d shard=%d schedules=%d complete=%d\n", cfg, shard, runs, complete);
     fflush(h_out); return 0;
   }
   int nrandom = h_argi(argc, argv, 1, 100);
